@@ -414,8 +414,12 @@ class Hydrodynamics:
         # Finds an initial guess for Tp and Tm using the template model and make
         # sure it satisfies all the relevant bounds.
         try:
-            if vw > self.template.vMin:
-                vwTemplate = min(vw, self.template.vJ - 1e-6)
+            # vMin and template.vMin are the same quantity computed by two different
+            # solvers: at vw=vMin they can only be compared within the solvers' accuracy
+            if vw > self.template.vMin - 1e-6:
+                vwTemplate = min(
+                    max(vw, self.template.vMin + 1e-6), self.template.vJ - 1e-6
+                )
                 vpTemplate = vp
                 if vp is not None:
                     vpTemplate = min(vp, vwTemplate)
